@@ -637,14 +637,38 @@ fn dump(tcx: TyCtxt<'_>, out_dir: &str) {
     let is_test = tcx.sess.opts.test;
     // Clone every `mir_built` body FIRST: later queries (effective visibilities, opaque
     // types, const evaluation) run borrowck on some bodies, which steals `mir_built`.
+    // Building the MIR of one body can itself steal another body's `mir_built`: a `match` on a named const evaluates that
+    // const, awaiting / calling a function that returns an opaque type (async fn, impl Trait) borrow-checks its definer and
+    // the closures nested in it.  Bodies are cloned in HIR order (no steal happens on the pinned tree that way); a body that
+    // is stolen all the same is taken from `mir_promoted` (the same MIR after constant promotion, still before borrowck and
+    // drop elaboration); if that is gone too it is reported, and the checks fail closed instead of the driver crashing.
     let mut built: Vec<(LocalDefId, Body<'_>)> = Vec::new();
+    let mut stolen: Vec<LocalDefId> = Vec::new();
     for ldid in tcx.hir_body_owners() {
         let kind = tcx.def_kind(ldid.to_def_id());
         if matches!(kind, DefKind::AnonConst | DefKind::InlineConst) {
             continue;
         }
-        let b = tcx.mir_built(ldid).borrow().clone();
-        built.push((ldid, b));
+        let steal = tcx.mir_built(ldid);
+        if !steal.is_stolen() {
+            let b = steal.borrow().clone();
+            built.push((ldid, b));
+            continue;
+        }
+        let (promoted, _) = tcx.mir_promoted(ldid);
+        if !promoted.is_stolen() {
+            let b = promoted.borrow().clone();
+            built.push((ldid, b));
+            continue;
+        }
+        if matches!(kind, DefKind::Const { .. } | DefKind::AssocConst { .. } | DefKind::Static { .. }) {
+            // the body of a constant item that const evaluation already consumed: its value is in the MIR of its users
+            continue;
+        }
+        stolen.push(ldid);
+    }
+    if !stolen.is_empty() {
+        eprintln!("factgen: {} bodies were stolen before they could be exported: {:?}", stolen.len(), stolen);
     }
     let eff = tcx.effective_visibilities(());
 
@@ -848,6 +872,7 @@ fn dump(tcx: TyCtxt<'_>, out_dir: &str) {
         .set("crate", J::s(&crate_name))
         .set("crate_types", J::Arr(crate_types.iter().map(J::s).collect()))
         .set("is_test", J::Bool(is_test))
+        .set("stolen_bodies", J::Arr(stolen.iter().map(|l| J::s(&defpath(tcx, l.to_def_id()))).collect()))
         .set(
             "cfg_features",
             J::Arr(
